@@ -6,6 +6,8 @@
 #include "simulator/packet.hpp"
 #include <map>
 #include <memory>
+#include <fstream>
+#include <unistd.h>
 
 namespace vh {
 
@@ -103,10 +105,51 @@ struct lossy_sink : sink
 
 struct sinkdef { std::string kind; std::vector<std::string> args; };
 
+static int ec_code(boost::system::error_code const& ec)
+{
+	namespace e = boost::asio::error;
+	if (!ec) return 0;
+	if (ec == e::operation_aborted) return 1;
+	if (ec == e::eof) return 2;
+	if (ec == e::connection_refused) return 3;
+	if (ec == e::would_block) return 4;
+	if (ec == e::bad_descriptor) return 5;
+	if (ec == e::not_connected) return 6;
+	if (ec == e::address_in_use) return 7;
+	if (ec == e::access_denied) return 8;
+	if (ec == boost::system::errc::address_not_available) return 9;
+	if (ec == e::address_family_not_supported) return 10;
+	if (ec == e::invalid_argument) return 11;
+	if (ec == e::message_size) return 12;
+	if (ec == e::connection_reset) return 13;
+	if (ec == e::host_not_found) return 14;
+	return 99;
+}
+
+static boost::system::error_code ec_of_code(long long c)
+{
+	namespace e = boost::asio::error;
+	switch (c)
+	{
+		case 0: return boost::system::error_code();
+		case 14: return e::host_not_found;
+		case 3: return e::connection_refused;
+		case 1: return e::operation_aborted;
+		default: return e::invalid_argument;
+	}
+}
+
+struct hostent { long long lat; long long ec; std::vector<asio::ip::address> addrs; };
+
 struct script_config : configuration
 {
 	std::map<long long, sinkdef> defs;
 	std::map<long long, std::shared_ptr<sink>> sinks;
+	std::map<asio::ip::address, std::vector<long long>> in_r, out_r;
+	std::vector<long long> chan_r;
+	int mtu = 1475;
+	std::map<std::pair<asio::ip::address, asio::ip::address>, int> mtus;
+	std::map<long long, hostent> hosts;
 	trace* tr = nullptr;
 	simulation* m_sim = nullptr;
 
@@ -139,37 +182,84 @@ struct script_config : configuration
 		return r;
 	}
 
-	route channel_route(asio::ip::address, asio::ip::address) override { return route(); }
-	route incoming_route(asio::ip::address) override { return route(); }
-	route outgoing_route(asio::ip::address) override { return route(); }
-	int path_mtu(asio::ip::address, asio::ip::address) override { return 1475; }
-	chrono::high_resolution_clock::duration hostname_lookup(asio::ip::address const&, std::string
-		, std::vector<asio::ip::address>&, boost::system::error_code& ec) override
-	{ ec = boost::asio::error::host_not_found; return dur(0); }
+	route channel_route(asio::ip::address, asio::ip::address) override { return mk_route(chan_r); }
+	route incoming_route(asio::ip::address ip) override
+	{ auto it = in_r.find(ip); return it == in_r.end() ? route() : mk_route(it->second); }
+	route outgoing_route(asio::ip::address ip) override
+	{ auto it = out_r.find(ip); return it == out_r.end() ? route() : mk_route(it->second); }
+	int path_mtu(asio::ip::address a, asio::ip::address b) override
+	{ auto it = mtus.find({a, b}); return it == mtus.end() ? mtu : it->second; }
+	chrono::high_resolution_clock::duration hostname_lookup(asio::ip::address const&, std::string name
+		, std::vector<asio::ip::address>& result, boost::system::error_code& ec) override
+	{
+		long long id = name.size() > 4 ? ll(name.substr(4)) : -1;
+		auto it = hosts.find(id);
+		if (it == hosts.end()) { ec = boost::asio::error::host_not_found; return dur(100000000); }
+		result = it->second.addrs;
+		ec = ec_of_code(it->second.ec);
+		return dur(it->second.lat);
+	}
+};
+
+struct df_option
+{
+	int v;
+	template <class P> int level(P const&) const { return 0; }
+	template <class P> int name(P const&) const { return IP_DONTFRAGMENT; }
+	template <class P> void const* data(P const&) const { return &v; }
+	template <class P> std::size_t size(P const&) const { return sizeof(v); }
 };
 
 struct runner
 {
 	using timer = asio::high_resolution_timer;
+	using tcps = asio::ip::tcp;
+	using udps = asio::ip::udp;
 	block const& b;
 	trace& tr;
 	script_config cfg;
 	std::unique_ptr<simulation> sim;
 	std::unique_ptr<asio::io_context> ios;
+	std::map<long long, std::unique_ptr<asio::io_context>> nodes;
 	std::map<long long, std::unique_ptr<timer>> timers;
 	std::map<long long, std::vector<toks>> handlers;
+	std::map<long long, std::unique_ptr<tcps::socket>> socks;
+	std::map<long long, std::unique_ptr<tcps::acceptor>> accs;
+	std::map<long long, std::unique_ptr<udps::socket>> udpsocks;
+	std::map<long long, std::unique_ptr<tcps::resolver>> rslvs;
+	std::map<long long, long long> obj_node;
+	std::string pcap_path;
+
+	static std::vector<asio::ip::address> addr_list(toks const& t, size_t k)
+	{
+		std::vector<asio::ip::address> r;
+		for (; k + 1 < t.size() && t[k] != ":"; k += 2) r.push_back(mk_addr(t[k], ll(t[k + 1])));
+		return r;
+	}
+	static std::vector<long long> after_colon(toks const& t)
+	{
+		std::vector<long long> r; bool on = false;
+		for (auto const& x : t) { if (on) r.push_back(ll(x)); if (x == ":") on = true; }
+		return r;
+	}
 
 	runner(block const& bl, trace& t) : b(bl), tr(t)
 	{
 		cfg.tr = &t;
 		for (auto const& l : b.lines)
-			if (l[0] == "S")
-			{
-				sinkdef d; d.kind = l[2]; d.args.assign(l.begin() + 3, l.end());
-				cfg.defs[ll(l[1])] = d;
-			}
+		{
+			if (l[0] == "S") { sinkdef d; d.kind = l[2]; d.args.assign(l.begin() + 3, l.end()); cfg.defs[ll(l[1])] = d; }
+			else if (l[0] == "IN") cfg.in_r[mk_addr(l[1], ll(l[2]))] = after_colon(l);
+			else if (l[0] == "OUT") cfg.out_r[mk_addr(l[1], ll(l[2]))] = after_colon(l);
+			else if (l[0] == "ROUTE") cfg.chan_r = after_colon(l);
+			else if (l[0] == "MTU") cfg.mtu = int(ll(l[1]));
+			else if (l[0] == "MTUP") cfg.mtus[{mk_addr(l[1], ll(l[2])), mk_addr(l[3], ll(l[4]))}] = int(ll(l[5]));
+			else if (l[0] == "HOST") { hostent h; h.lat = ll(l[2]); h.ec = ll(l[3]); h.addrs = addr_list(l, 4); cfg.hosts[ll(l[1])] = h; }
+		}
 		sim.reset(new simulation(cfg));
 		ios.reset(new asio::io_context(*sim));
+		for (auto const& l : b.lines)
+			if (l[0] == "N") nodes[ll(l[1])].reset(new asio::io_context(*sim, addr_list(l, 2)));
 	}
 
 	timer& get(long long i)
@@ -188,9 +278,15 @@ struct runner
 		for (auto const& o : ops) op(o, 0);
 	}
 
+	static std::string epf(asio::ip::address const& a, int port)
+	{
+		int fam; unsigned long long v; addr_fields(a, fam, v);
+		char tmp[96]; std::snprintf(tmp, sizeof(tmp), " %d %llu %d", fam, v, port);
+		return tmp;
+	}
+
 	void inject(toks const& t, size_t k)
 	{
-		// type seed len seq overhead dropid fromfam fromaddr fromport : hops...
 		aux::packet p;
 		p.type = aux::packet::type_t(int(ll(t[k])));
 		long long const seed = ll(t[k + 1]), len = ll(t[k + 2]);
@@ -213,44 +309,289 @@ struct runner
 		forward_packet(std::move(p));
 	}
 
+	// buffers built from "seed len" pairs after the colon
+	static std::shared_ptr<std::vector<std::vector<std::uint8_t>>> mk_bufs(toks const& t)
+	{
+		auto r = std::make_shared<std::vector<std::vector<std::uint8_t>>>();
+		std::vector<long long> v = after_colon(t);
+		for (size_t i = 0; i + 1 < v.size(); i += 2) { r->emplace_back(); pat_fill(r->back(), v[i], v[i + 1]); }
+		return r;
+	}
+	static std::shared_ptr<std::vector<std::vector<std::uint8_t>>> mk_rbufs(toks const& t)
+	{
+		auto r = std::make_shared<std::vector<std::vector<std::uint8_t>>>();
+		for (long long n : after_colon(t)) r->emplace_back(std::size_t(n));
+		return r;
+	}
+	static std::string read_args(int ec, std::size_t n, std::vector<std::vector<std::uint8_t>> const& bufs)
+	{
+		std::vector<std::uint8_t> flat;
+		for (auto const& b : bufs) flat.insert(flat.end(), b.begin(), b.end());
+		if (n > flat.size()) n = flat.size();
+		flat.resize(n);
+		char tmp[128]; std::snprintf(tmp, sizeof(tmp), " %d %zu %zu %llu", ec, n, n, n == 0 ? 0ULL : digest(flat));
+		return tmp;
+	}
+
+	asio::io_context& node(long long n) { return *nodes.at(n); }
+
 	void op(toks const& t, size_t k)
 	{
 		std::string const& c = t[k];
+		auto arg = [&](size_t i) { return ll(t[k + i]); };
 		if (c == "post")
 		{
-			long long h = ll(t[k + 1]);
+			long long h = arg(1);
 			asio::post(*ios, [this, h] { run_handler(h, ""); });
 		}
 		else if (c == "expires_at")
 		{
-			long long i = ll(t[k + 1]);
-			std::size_t r = get(i).expires_at(tp(dur(ll(t[k + 2]))));
+			long long i = arg(1);
+			std::size_t r = get(i).expires_at(tp(dur(arg(2))));
 			tr.line("R t=%lld i=%lld n=%zu", now_ns(), i, r);
 		}
 		else if (c == "expires_after")
 		{
-			long long i = ll(t[k + 1]);
-			std::size_t r = get(i).expires_after(dur(ll(t[k + 2])));
+			long long i = arg(1);
+			std::size_t r = get(i).expires_after(dur(arg(2)));
 			tr.line("R t=%lld i=%lld n=%zu", now_ns(), i, r);
 		}
 		else if (c == "async_wait")
 		{
-			long long i = ll(t[k + 1]);
-			long long h = ll(t[k + 2]);
+			long long i = arg(1), h = arg(2);
 			get(i).async_wait([this, h](boost::system::error_code const& ec) {
 				run_handler(h, ec ? (ec == boost::asio::error::operation_aborted ? " 1" : " 99") : " 0");
 			});
 		}
 		else if (c == "cancel")
 		{
-			long long i = ll(t[k + 1]);
+			long long i = arg(1);
 			std::size_t r = get(i).cancel();
 			tr.line("R t=%lld i=%lld n=%zu", now_ns(), i, r);
 		}
-		else if (c == "destroy") timers.erase(ll(t[k + 1]));
+		else if (c == "destroy") timers.erase(arg(1));
 		else if (c == "stop") sim->stop();
 		else if (c == "inject") inject(t, k + 1);
+		// ---------------- udp ----------------
+		else if (c == "udp_new") { obj_node[arg(1)] = arg(2); udpsocks[arg(1)].reset(new udps::socket(node(arg(2)))); udpsocks[arg(1)]->non_blocking(true); }
+		else if (c == "udp_open") { boost::system::error_code ec; udpsocks.at(arg(1))->open(arg(2) ? udps::v4() : udps::v6(), ec); }
+		else if (c == "udp_bind")
+		{
+			boost::system::error_code ec;
+			udpsocks.at(arg(1))->bind(udps::endpoint(mk_addr(t[k + 2], arg(3)), (unsigned short)arg(4)), ec);
+			tr.line("L t=%lld 4 1 %lld %d", now_ns(), arg(1), ec_code(ec));
+		}
+		else if (c == "udp_close") { boost::system::error_code ec; udpsocks.at(arg(1))->close(ec); }
+		else if (c == "udp_cancel") { boost::system::error_code ec; udpsocks.at(arg(1))->cancel(ec); }
+		else if (c == "udp_destroy")
+		{
+			long long s = arg(1);
+			udpsocks[s].reset();
+			udpsocks[s].reset(new udps::socket(node(obj_node[s]))); udpsocks[s]->non_blocking(true);
+		}
+		else if (c == "udp_send")
+		{
+			auto bufs = mk_bufs(t);
+			std::vector<asio::const_buffer> cb;
+			for (auto const& b : *bufs) cb.push_back(asio::const_buffer(b.data(), b.size()));
+			boost::system::error_code ec;
+			std::size_t n = udpsocks.at(arg(1))->send_to(cb, udps::endpoint(mk_addr(t[k + 2], arg(3)), (unsigned short)arg(4)), 0, ec);
+			tr.line("L t=%lld 4 2 %lld %d %zu", now_ns(), arg(1), ec_code(ec), n);
+		}
+		else if (c == "udp_recvfrom")
+		{
+			auto bufs = mk_rbufs(t);
+			std::vector<asio::mutable_buffer> mb;
+			for (auto& b : *bufs) mb.push_back(asio::mutable_buffer(b.data(), b.size()));
+			boost::system::error_code ec; udps::endpoint from;
+			std::size_t n = udpsocks.at(arg(1))->receive_from(mb, from, 0, ec);
+			std::string a = read_args(ec_code(ec), ec ? 0 : n, *bufs);
+			if (!ec) a += epf(from.address(), from.port());
+			tr.line("L t=%lld 4 3 %lld%s", now_ns(), arg(1), a.c_str());
+		}
+		else if (c == "udp_arecv")
+		{
+			long long s = arg(1), want = arg(2), h = arg(3);
+			auto bufs = mk_rbufs(t);
+			std::vector<asio::mutable_buffer> mb;
+			for (auto& b : *bufs) mb.push_back(asio::mutable_buffer(b.data(), b.size()));
+			auto from = std::make_shared<udps::endpoint>();
+			auto fn = [this, h, bufs, from, want](boost::system::error_code const& ec, std::size_t n) {
+				std::string a = read_args(ec_code(ec), ec ? 0 : n, *bufs);
+				if (!ec && want) a += epf(from->address(), from->port());
+				run_handler(h, a);
+			};
+			if (want) udpsocks.at(s)->async_receive_from(mb, *from, fn);
+			else udpsocks.at(s)->async_receive(mb, fn);
+		}
+		else if (c == "udp_wait")
+		{
+			long long h = arg(2);
+			udpsocks.at(arg(1))->async_wait(udps::socket::wait_read, [this, h](boost::system::error_code const& ec) {
+				run_handler(h, " " + std::to_string(ec_code(ec)));
+			});
+		}
+		else if (c == "udp_df") { boost::system::error_code ec; udpsocks.at(arg(1))->set_option(df_option{int(arg(2))}, ec); }
+		else if (c == "udp_lep")
+		{
+			boost::system::error_code ec;
+			auto ep = udpsocks.at(arg(1))->local_endpoint(ec);
+			tr.line("L t=%lld 4 4 %lld %d%s", now_ns(), arg(1), ec_code(ec), ec ? " 0 0 0" : epf(ep.address(), ep.port()).c_str());
+		}
+		// ---------------- tcp ----------------
+		else if (c == "tcp_new") { obj_node[arg(1)] = arg(2); socks[arg(1)].reset(new tcps::socket(node(arg(2)))); socks[arg(1)]->non_blocking(true); }
+		else if (c == "acc_new") { obj_node[arg(1)] = arg(2); accs[arg(1)].reset(new tcps::acceptor(node(arg(2)))); }
+		else if (c == "tcp_open") { boost::system::error_code ec; sk(arg(1)).open(arg(2) ? tcps::v4() : tcps::v6(), ec); }
+		else if (c == "tcp_bind")
+		{
+			boost::system::error_code ec;
+			sk(arg(1)).bind(tcps::endpoint(mk_addr(t[k + 2], arg(3)), (unsigned short)arg(4)), ec);
+			tr.line("L t=%lld 4 5 %lld %d", now_ns(), arg(1), ec_code(ec));
+		}
+		else if (c == "tcp_close")
+		{
+			boost::system::error_code ec;
+			if (accs.count(arg(1))) accs.at(arg(1))->close(ec); else socks.at(arg(1))->close(ec);
+		}
+		else if (c == "tcp_cancel")
+		{
+			boost::system::error_code ec;
+			if (accs.count(arg(1))) accs.at(arg(1))->cancel(ec); else socks.at(arg(1))->cancel(ec);
+		}
+		else if (c == "tcp_destroy")
+		{
+			long long s = arg(1);
+			if (accs.count(s)) { accs[s].reset(); accs[s].reset(new tcps::acceptor(node(obj_node[s]))); }
+			else { socks[s].reset(); socks[s].reset(new tcps::socket(node(obj_node[s]))); socks[s]->non_blocking(true); }
+		}
+		else if (c == "tcp_connect")
+		{
+			long long h = arg(5);
+			socks.at(arg(1))->async_connect(tcps::endpoint(mk_addr(t[k + 2], arg(3)), (unsigned short)arg(4))
+				, [this, h](boost::system::error_code const& ec) { run_handler(h, " " + std::to_string(ec_code(ec))); });
+		}
+		else if (c == "tcp_write")
+		{
+			long long h = arg(2);
+			auto bufs = mk_bufs(t);
+			std::vector<asio::const_buffer> cb;
+			for (auto const& b : *bufs) cb.push_back(asio::const_buffer(b.data(), b.size()));
+			socks.at(arg(1))->async_write_some(cb, [this, h, bufs](boost::system::error_code const& ec, std::size_t n) {
+				run_handler(h, " " + std::to_string(ec_code(ec)) + " " + std::to_string(n));
+			});
+		}
+		else if (c == "tcp_read")
+		{
+			long long h = arg(2);
+			auto bufs = mk_rbufs(t);
+			std::vector<asio::mutable_buffer> mb;
+			for (auto& b : *bufs) mb.push_back(asio::mutable_buffer(b.data(), b.size()));
+			socks.at(arg(1))->async_read_some(mb, [this, h, bufs](boost::system::error_code const& ec, std::size_t n) {
+				run_handler(h, read_args(ec_code(ec), ec ? 0 : n, *bufs));
+			});
+		}
+		else if (c == "tcp_readsome")
+		{
+			auto bufs = mk_rbufs(t);
+			std::vector<asio::mutable_buffer> mb;
+			for (auto& b : *bufs) mb.push_back(asio::mutable_buffer(b.data(), b.size()));
+			boost::system::error_code ec;
+			std::size_t n = socks.at(arg(1))->read_some(mb, ec);
+			tr.line("L t=%lld 4 6 %lld%s", now_ns(), arg(1), read_args(ec_code(ec), ec ? 0 : n, *bufs).c_str());
+		}
+		else if (c == "tcp_wait")
+		{
+			long long h = arg(2);
+			socks.at(arg(1))->async_wait(tcps::socket::wait_read, [this, h](boost::system::error_code const& ec) {
+				run_handler(h, " " + std::to_string(ec_code(ec)));
+			});
+		}
+		else if (c == "tcp_avail")
+		{
+			boost::system::error_code ec;
+			std::size_t n = socks.at(arg(1))->available(ec);
+			tr.line("L t=%lld 4 7 %lld %d %zu", now_ns(), arg(1), ec_code(ec), ec ? std::size_t(0) : n);
+		}
+		else if (c == "tcp_lep")
+		{
+			boost::system::error_code ec;
+			auto ep = sk(arg(1)).local_endpoint(ec);
+			tr.line("L t=%lld 4 8 %lld %d%s", now_ns(), arg(1), ec_code(ec), ec ? " 0 0 0" : epf(ep.address(), ep.port()).c_str());
+		}
+		else if (c == "tcp_rep")
+		{
+			boost::system::error_code ec;
+			auto ep = sk(arg(1)).remote_endpoint(ec);
+			tr.line("L t=%lld 4 9 %lld %d%s", now_ns(), arg(1), ec_code(ec), ec ? " 0 0 0" : epf(ep.address(), ep.port()).c_str());
+		}
+		else if (c == "listen")
+		{
+			boost::system::error_code ec;
+			accs.at(arg(1))->listen(int(arg(2)), ec);
+			tr.line("L t=%lld 4 10 %lld %d", now_ns(), arg(1), ec_code(ec));
+		}
+		else if (c == "accept")
+		{
+			long long a = arg(1), peer = arg(2), want = arg(3), h = arg(4);
+			if (want)
+			{
+				auto ep = std::make_shared<tcps::endpoint>();
+				accs.at(a)->async_accept(*socks.at(peer), *ep, [this, h, ep](boost::system::error_code const& ec) {
+					run_handler(h, " " + std::to_string(ec_code(ec)) + (ec ? std::string() : epf(ep->address(), ep->port())));
+				});
+			}
+			else
+				accs.at(a)->async_accept(*socks.at(peer), [this, h](boost::system::error_code const& ec) {
+					run_handler(h, " " + std::to_string(ec_code(ec)));
+				});
+		}
+		else if (c == "accept2")
+		{
+			long long a = arg(1), dst = arg(2), h = arg(3);
+			obj_node[dst] = obj_node[a];
+			accs.at(a)->async_accept([this, h, dst](boost::system::error_code const& ec, tcps::socket peer) {
+				if (!ec)
+				{
+					socks[dst].reset();
+					socks[dst].reset(new tcps::socket(std::move(peer)));
+					socks[dst]->non_blocking(true);
+				}
+				run_handler(h, " " + std::to_string(ec_code(ec)) + " " + std::to_string(ec ? -1 : dst));
+			});
+		}
+		else if (c == "acc_close0") accs.at(arg(1))->close();
+		// ---------------- resolver ----------------
+		else if (c == "rslv_new") rslvs[arg(1)].reset(new tcps::resolver(node(arg(2))));
+		else if (c == "resolve")
+		{
+			long long r = arg(1);
+			std::string name; long long port, h;
+			if (t[k + 2] == "lit") { name = mk_addr(t[k + 3], arg(4)).to_string(); port = arg(5); h = arg(6); }
+			else { name = "host" + t[k + 3]; port = arg(4); h = arg(5); }
+			std::string const service = std::to_string(port);
+			rslvs.at(r)->async_resolve(name, service.c_str(), [this, h](boost::system::error_code const& ec
+				, tcps::resolver::results_type res) {
+				std::string a = " " + std::to_string(ec_code(ec)) + " " + std::to_string(res.size());
+				for (auto const& e : res) { tcps::endpoint ep = e; a += epf(ep.address(), ep.port()); }
+				run_handler(h, a);
+			});
+		}
+		else if (c == "rslv_cancel") rslvs.at(arg(1))->cancel();
+		else if (c == "pcap_on")
+		{
+			char path[] = "/tmp/verif_pcap_XXXXXX";
+			int fd = mkstemp(path); if (fd >= 0) close(fd);
+			pcap_path = path;
+			sim->log_pcap(path);
+		}
 		else tr.line("BADOP %s", c.c_str());
+	}
+
+	tcps::socket& sk(long long i)
+	{
+		auto it = accs.find(i);
+		if (it != accs.end()) return *it->second;
+		return *socks.at(i);
 	}
 
 	void go()
@@ -268,9 +609,19 @@ struct runner
 			else if (l[1] == "restart") sim->restart();
 			else op(l, 1);
 		}
-		timers.clear();
-		ios.reset();
-		sim.reset();
+		// tear down: objects first, then nodes, then the simulation (flushes the capture)
+		rslvs.clear(); socks.clear(); accs.clear(); udpsocks.clear(); timers.clear();
+		nodes.clear(); ios.reset(); sim.reset();
+		if (!pcap_path.empty())
+		{
+			std::ifstream f(pcap_path, std::ios::binary);
+			std::string data((std::istreambuf_iterator<char>(f)), std::istreambuf_iterator<char>());
+			unlink(pcap_path.c_str());
+			static char const* d = "0123456789abcdef";
+			std::string hx;
+			for (unsigned char ch : data) { hx.push_back(d[ch >> 4]); hx.push_back(d[ch & 15]); }
+			tr.raw("F " + (hx.empty() ? std::string("-") : hx));
+		}
 	}
 };
 
